@@ -68,7 +68,7 @@ SIG = {
     "OEChannels": ["nat"], "OEArrays": ["nat", "bool"], "OEEq": ["nat", "nat"],
     "OSDescr": ["nat"], "OSCheck": ["nat"], "OSChannels": ["nat"], "OSPoints": ["nat"], "OSDuration": ["nat"],
     "OSForge": ["nat", "bool", "bool", "bool"], "OSAwg": ["nat", "index"], "OSSeqx": ["nat", "bool"],
-    "OSEq": ["nat", "nat"], "OSLen": ["nat"],
+    "OSEq": ["nat", "nat"], "OSLen": ["nat"], "OSSR": ["nat"],
 }
 
 SQFIELD = {"twait": "FTwait", "nrep": "FNrep", "jump_input": "FJumpInput", "jump_target": "FJumpTarget",
@@ -573,6 +573,9 @@ class Impl:
 
     def op_OSEq(self, s1, s2):
         return self.S[s1] == self.S[s2]
+
+    def op_OSSR(self, s):
+        return self.S[s].SR
 
     def op_OSLen(self, s):
         return self.S[s].length_sequenceelements
